@@ -311,7 +311,7 @@ func c03Units(ctx *core.Ctx) []core.Unit {
 					sc[i] = frFromBig(prfR(ctx.Seed, "c03msm", i))
 				}
 				body := func() string {
-					res, err := ipa.MultiScalar(pts, sc)
+					res, err := ipa.MultiScalar(append([]banderwagon.Element(nil), pts...), append([]fr.Element(nil), sc...))
 					if err != nil {
 						return "error " + err.Error()
 					}
